@@ -508,46 +508,42 @@ Proof.
 Qed.
 
 (* ---------- combine_validations ---------- *)
-Lemma combine_ok_iff : forall (E : Type) (rs : list (vresult E)),
-    combine_validations rs = VOk <-> (forall r, In r rs -> r = VOk \/ r = VErr []).
+Lemma existsb_failed_false : forall (E : Type) (rs : list (vresult E)),
+    existsb result_failed rs = false <-> Forall (fun r => r = VOk) rs.
 Proof.
-  intros E rs. unfold combine_validations.
-  destruct (flat_map result_errors rs) as [|e es] eqn:Hfm.
-  - split; [|reflexivity]. intros _ r Hin.
-    destruct r as [|errs]; [left; reflexivity|right].
-    assert (Hsub : forall x, In x errs -> In x (flat_map result_errors rs))
-      by (intros x Hx; apply in_flat_map; exists (VErr errs); split; assumption).
-    rewrite Hfm in Hsub. destruct errs as [|x errs]; [reflexivity|].
-    exfalso. exact (Hsub x (or_introl eq_refl)).
-  - split; [discriminate|]. intros H. exfalso.
-    assert (Hin : In e (flat_map result_errors rs)) by (rewrite Hfm; left; reflexivity).
-    apply in_flat_map in Hin. destruct Hin as [r [Hr He]].
-    destruct (H r Hr) as [Hk|Hk]; subst r; contradiction.
+  intros E rs. induction rs as [|r t IH].
+  - split; [constructor|reflexivity].
+  - cbn [existsb]. destruct r as [|es]; cbn [result_failed orb].
+    + rewrite IH. split.
+      * intros H. constructor; [reflexivity|exact H].
+      * intros H. inversion H as [|? ? _ Ht]. exact Ht.
+    + split; [discriminate|]. intros H. inversion H as [|? ? Hr _]. discriminate Hr.
 Qed.
 
-Lemma combine_all_ok_iff : forall (E : Type) (rs : list (vresult E)),
-    ~ In (VErr []) rs ->
-    (combine_validations rs = VOk <-> Forall (fun r => r = VOk) rs).
+Lemma combine_ok_iff : forall (E : Type) (rs : list (vresult E)),
+    combine_validations rs = VOk <-> Forall (fun r => r = VOk) rs.
 Proof.
-  intros E rs Hne. rewrite combine_ok_iff, Forall_forall. split.
-  - intros H r Hin. destruct (H r Hin) as [Hk|Hk]; [exact Hk|]. subst r. contradiction.
-  - intros H r Hin. left. apply H, Hin.
+  intros E rs. rewrite <- existsb_failed_false. unfold combine_validations.
+  destruct (existsb result_failed rs); split; intros H; try reflexivity; discriminate H.
 Qed.
 
 Lemma combine_err : forall (E : Type) (rs : list (vresult E)),
-    combine_validations rs <> VOk ->
+    ~ Forall (fun r => r = VOk) rs ->
     combine_validations rs = VErr (flat_map result_errors rs).
 Proof.
-  intros E rs. unfold combine_validations.
-  destruct (flat_map result_errors rs); [intros H; contradiction|reflexivity].
+  intros E rs H. unfold combine_validations.
+  destruct (existsb result_failed rs) eqn:Hex; [reflexivity|].
+  exfalso. apply H. apply existsb_failed_false. exact Hex.
 Qed.
 
-Lemma combine_some_error : forall (E : Type) (rs : list (vresult E)) es e,
-    In (VErr es) rs -> In e es ->
-    combine_validations rs = VErr (flat_map result_errors rs).
+(* the regression repaired by 2f7c47a, about the OLD definition *)
+Lemma combine_old_refuted :
+  exists (rs : list (vresult Z)),
+    ~ Forall (fun r => r = VOk) rs /\ combine_validations_old rs = VOk /\
+    combine_validations rs = VErr [].
 Proof.
-  intros E rs es e Hin He. apply combine_err. rewrite combine_ok_iff. intros H.
-  destruct (H _ Hin) as [Hk|Hk]; [discriminate|]. injection Hk as Hes. subst es. contradiction.
+  exists [VOk; VErr []]. split; [|split; reflexivity].
+  intros H. inversion H as [|? ? _ H2]. inversion H2 as [|? ? H3 _]. discriminate H3.
 Qed.
 
 (* ---------- statements in the form used by Props/C17.v ---------- *)
@@ -645,19 +641,9 @@ Qed.
 
 Lemma combine_all :
   forall (E : Type) (rs : list (vresult E)),
-    (combine_validations rs = VOk <-> (forall r, In r rs -> r = VOk \/ r = VErr [])) /\
-    (~ In (VErr []) rs -> (combine_validations rs = VOk <-> Forall (fun r => r = VOk) rs)) /\
-    (combine_validations rs <> VOk ->
+    (combine_validations rs = VOk <-> Forall (fun r => r = VOk) rs) /\
+    (~ Forall (fun r => r = VOk) rs ->
      combine_validations rs = VErr (flat_map result_errors rs)).
 Proof.
-  intros E rs. split; [exact (combine_ok_iff E rs)|].
-  split; [exact (combine_all_ok_iff E rs)|exact (combine_err E rs)].
-Qed.
-
-Lemma combine_refuted :
-  exists (rs : list (vresult Z)),
-    ~ Forall (fun r => r = VOk) rs /\ combine_validations rs = VOk.
-Proof.
-  exists [VOk; VErr []]. split; [|reflexivity].
-  intros H. inversion H as [|? ? _ H2]. inversion H2 as [|? ? H3 _]. discriminate H3.
+  intros E rs. split; [exact (combine_ok_iff E rs)|exact (combine_err E rs)].
 Qed.
